@@ -190,7 +190,7 @@ func runReplay(bin string, cfg propCfg, path string, timeout time.Duration) (boo
 			return false, out, false
 		case err != nil:
 			// the process died (fatal error, stack overflow, OOM kill): the case kills the process
-			return true, "process died during replay:\n" + tail(out, 40), true
+			return true, "process died during replay:\n" + head(out, 30), true
 		}
 		return false, out, false
 	case <-time.After(timeout):
